@@ -27,13 +27,28 @@ func Units(s string) []any {
 	return r
 }
 
-// FromUnits converts UTF-16 code units to a Go (UTF-8) string.
+// FromUnits converts UTF-16 code units to a Go (UTF-8) string.  A value of
+// 65536 + b stands for the raw byte b (the specification's way to put an
+// ill-formed UTF-8 sequence into a source text).
 func FromUnits(us []int) string {
-	u := make([]uint16, len(us))
-	for i, x := range us {
-		u[i] = uint16(x)
+	var out []byte
+	var run []uint16
+	flush := func() {
+		if len(run) > 0 {
+			out = append(out, string(utf16.Decode(run))...)
+			run = run[:0]
+		}
 	}
-	return string(utf16.Decode(u))
+	for _, x := range us {
+		if x >= 65536 {
+			flush()
+			out = append(out, byte(x-65536))
+		} else {
+			run = append(run, uint16(x))
+		}
+	}
+	flush()
+	return string(out)
 }
 
 // name renders an identifier name: plain ASCII as is, other units as \uXXXX
